@@ -199,8 +199,22 @@ func runCase(idx int, c *caseDesc) {
 			}
 			pre = append(pre, &x)
 		}
-		cb.LoadRules(pre)
-		run.Count("probe_number_reloads", 1)
+		// (not when a predecessor equals ANOTHER rule of the list in every field but the id: the manager then keeps that
+		// predecessor's breaker - old rule object, old id - for the other rule, and the listeners hear the old id)
+		twin := false
+		for i, p := range pre {
+			for j, r := range rules {
+				a, b := *p, *r
+				a.Id, b.Id = "", ""
+				if i != j && a == b {
+					twin = true
+				}
+			}
+		}
+		if !twin {
+			cb.LoadRules(pre)
+			run.Count("probe_number_reloads", 1)
+		}
 	}
 	if _, err := cb.LoadRules(rules); err != nil {
 		run.Violation("C03/load-error", err.Error(), c)
